@@ -795,6 +795,20 @@ func VerifConnUsable(g *GoBackNConn) bool {
 	return g != nil && g.cfg != nil && tminv(g.timeoutManager) && g.cfg.maxChunkSize >= 0
 }
 
+//@ func NewClientConn(ctx context.Context, n uint8, sendFunc sendBytesFunc, receiveFunc recvBytesFunc, opts ...Option) (conn *GoBackNConn, err error)
+//@   props C15 C17 C11
+//@   trusted
+//@   modifies wire(), events("*"), chanlog[struct{}](), chanlog[time.Time](), chanlog[[]byte](), chanlog[int](), chanlog[error]()
+//@   ensures implies(err == nil, fresh(conn) && VerifConnUsable(conn))
+//@   ensures implies(err != nil, conn == nil)
+
+//@ func NewServerConn(ctx context.Context, sendFunc sendBytesFunc, recvFunc recvBytesFunc, opts ...Option) (conn *GoBackNConn, err error)
+//@   props C15 C17 C11
+//@   trusted
+//@   modifies wire(), events("*"), chanlog[struct{}](), chanlog[time.Time](), chanlog[[]byte](), chanlog[int](), chanlog[error]()
+//@   ensures implies(err == nil, fresh(conn) && VerifConnUsable(conn))
+//@   ensures implies(err != nil, conn == nil)
+
 // ---- chunking (C14) -------------------------------------------------------------
 
 // chunkSent: the i-th channel send of this goroutine handed the send loop a
